@@ -6,7 +6,8 @@ from gen_http import Request, Header, Chunk
 
 HARNESS = "rx_driver"
 LEAN_MODULES = ["ViaProofs.C01"]
-REQUIRED_THEOREMS = []
+LEMMA_MODULES = ['ViaProofs.Frag.Lines', 'ViaProofs.Frag.Headers', 'ViaProofs.Frag.Compose', 'ViaProofs.C05']
+REQUIRED_THEOREMS = ['Via.C01_frag', 'Via.RR.receive_head_seq', 'Via.RR.receive_head_fail_seq', 'Via.RR.receive_body_seq', "Via.RR.feedHead_flatten'"]
 LEVEL = "proof"
 RULE = ("well-formed requests (hand-written feature set + random within each configuration's limits) x partitions into reads "
         "(whole, byte-wise, line-wise, every single cut, every pair of cuts for short messages, cuts at structural offsets, "
